@@ -149,7 +149,7 @@ def p_substr_lemma(I, args, kwargs, node):
 PRIMS['substr_lemma'] = p_substr_lemma
 
 
-from .values import VTuple  # noqa: E402
+from .values import VTuple, VDict  # noqa: E402
 
 
 def _no_such(what):
@@ -190,7 +190,11 @@ def p_ext_call_kwarg(I, args, kwargs, node):
     nm, k, kw = [_m.concretise(a) for a in args]
     rs = [r for r in I.ghost.get('ext_trace', []) if r['name'] == nm]
     if k < len(rs):
-        return rs[k]['kwargs'].get(kw, NONE)
+        kws = rs[k]['kwargs']
+        if kw not in kws and kw != '**' and isinstance(kws.get('**'), VDict):
+            # passed through a `**mapping` whose entries are known
+            return kws['**'].items.get(kw, NONE)
+        return kws.get(kw, NONE)
     return _no_such('call')
 
 
